@@ -31,6 +31,9 @@ func TestDebugTrace(t *testing.T) {
 		if os.Getenv("VERIF_DEBUG_SEQ") == fmt.Sprint(c.Seq) {
 			fmt.Printf("     diff: %s\n", diffSummary(c.Pre, c.Post))
 		}
+		if os.Getenv("VERIF_DEBUG_DUMP") == fmt.Sprint(c.Seq) {
+			fmt.Printf("     post: %s\n     body: %s\n", mustJSON(c.Post), mustJSON(c.Body))
+		}
 	}
 	for _, k := range r.W.Store.Keys() {
 		b, _ := json.Marshal(r.W.Store.Peek(k))
